@@ -1,2 +1,10 @@
 import TinsModel.Props.C09
+#print axioms Tins.Props.C09.crc32_is_ieee
+#print axioms Tins.Props.C09.rc4_is_textbook
 #print axioms Tins.Props.C09.rc4_involutive
+#print axioms Tins.Props.C09.wep_refines_spec
+#print axioms Tins.Props.C09.wep_spec_roundtrip
+#print axioms Tins.Props.C09.wep_roundtrip
+#print axioms Tins.Props.C09.wep_reject
+#print axioms Tins.Props.C09.wep_no_key
+#print axioms Tins.Props.C09.wep_decrypt_noFault
